@@ -12,6 +12,9 @@ def check_functions(repo, rep, funcs, rule="R-GUARD"):
     bad = set()
     for e in evs:
         s = e.site.split(".<locals>")[0]
+        parts_ = s.split(".")
+        if len(parts_) >= 3 and parts_[1].startswith("_") and not parts_[1].startswith("__"):
+            continue                       # method of a private helper class (value objects of the implementation): not part of the API
         bad.add(s)
         rep.violation(rule, s, e.key, e.msg, construct="line %d" % e.node.lineno)
     n = 0
